@@ -26,7 +26,7 @@ def week_table(spec):
                 tab[wd][mn] = 1
         return tab
     for d0, d1, ivs in spec:
-        for wd in range(d0, d1 + 1):
+        for wd in gen.days_of(d0, d1):
             for s, e in ivs:
                 if e <= s:
                     for mn in range(s, 1440):
